@@ -97,10 +97,34 @@ type c16Run struct {
 	predef     int
 	boots      int
 	reopens    int
+	// shape "delete id X, put X again, later delete of other ids" (replayed deletes must not touch X)
+	opIdx      int
+	delIDs     map[int32]int // ids removed by a delete batch and still absent -> op index of that delete
+	reput      map[int32]int // ids deleted, then put again and still present -> op index of the first delete
+	delBatches int           // delete batches that removed something
+	dance      int           // times the shape was completed
+	danceFrom  int           // smallest op index of a first delete among completed shapes (-1: none)
+}
+
+func (r *c16Run) present(t vpT, id int32) bool {
+	_, ok, err := r.env.db.GetMappingByID(vpmetaCtx, id)
+	if err != nil {
+		vpmetaFail(t, "GetMappingByID(%d): %v", id, err)
+	}
+	return ok
+}
+
+// dropVanished forgets re-put ids that a replacing put removed again without a delete event.
+func (r *c16Run) dropVanished(t vpT) {
+	for id := range r.reput {
+		if !r.present(t, id) {
+			delete(r.reput, id)
+		}
+	}
 }
 
 func (r *c16Run) fork(env *vpmetaEnv) *c16Run {
-	n := &c16Run{env: env, ents: append([]vpmetaEvent(nil), r.ents...), dirtyFlood: map[string]bool{}, mapIDs: map[int32]bool{}}
+	n := &c16Run{env: env, ents: append([]vpmetaEvent(nil), r.ents...), dirtyFlood: map[string]bool{}, mapIDs: map[int32]bool{}, delIDs: map[int32]int{}, reput: map[int32]int{}, danceFrom: -1}
 	for k, v := range r.dirtyFlood {
 		n.dirtyFlood[k] = v
 	}
@@ -236,13 +260,39 @@ func (r *c16Run) apply(t vpT, op c16Op, inCont bool) string {
 			}
 			for _, id := range op.IDs[:n] {
 				r.mapIDs[id] = true
+				if at, ok := r.delIDs[id]; ok {
+					delete(r.delIDs, id)
+					r.reput[id] = at
+				}
 			}
+			r.dropVanished(t)
 		}
 		return c16Err(err)
 	case "delmap":
+		inBatch := map[int32]bool{}
+		var gone []int32
+		for _, id := range op.IDs {
+			if !inBatch[id] && r.present(t, id) {
+				gone = append(gone, id)
+			}
+			inBatch[id] = true
+		}
 		n, err := db.deleteMappingsByIdBatched(vpmetaCtx, op.IDs)
 		if err == nil && n > 0 {
 			r.mapDeleted++
+			r.delBatches++
+			for id, at := range r.reput {
+				if !inBatch[id] { // a re-put id survives a later delete batch of other ids
+					r.dance++
+					if r.danceFrom < 0 || at < r.danceFrom {
+						r.danceFrom = at
+					}
+				}
+			}
+			for _, id := range gone {
+				delete(r.reput, id)
+				r.delIDs[id] = r.opIdx
+			}
 		}
 		return fmt.Sprintf("deleted %d %s", n, c16Err(err))
 	case "reset":
@@ -296,7 +346,7 @@ func c16Prop(t vpT, c c16Case) (nontrivial bool, classes []string) {
 	defer os.RemoveAll(root)
 	clock := &vpmetaClock{t: c.T0}
 	opt := Options{MaxBudget: c.MaxBudget, StepSec: c.Step, BudgetBonus: c.Bonus, GlobalBudget: c.Global}
-	prim := &c16Run{env: vpmetaCreate(t, root, "primary", opt, c.Chunk, clock), dirtyFlood: map[string]bool{}, mapIDs: map[int32]bool{}}
+	prim := &c16Run{env: vpmetaCreate(t, root, "primary", opt, c.Chunk, clock), dirtyFlood: map[string]bool{}, mapIDs: map[int32]bool{}, delIDs: map[int32]int{}, reput: map[int32]int{}, danceFrom: -1}
 	var envs []*vpmetaEnv
 	envs = append(envs, prim.env)
 	defer func() {
@@ -331,6 +381,7 @@ func c16Prop(t vpT, c c16Case) (nontrivial bool, classes []string) {
 		if i == c.SnapAt {
 			takeSnapshot()
 		}
+		prim.opIdx = i
 		prim.apply(t, op, false)
 	}
 	if snapDir == "" {
@@ -427,7 +478,25 @@ func c16Prop(t vpT, c c16Case) (nontrivial bool, classes []string) {
 	if len(c.Cont) > 0 {
 		classes = append(classes, "continuation")
 	}
-	nontrivial = (prim.renames > 0 || prim.mapDeleted > 0 || prim.replaced > 0) && inside
+	rotated := false
+	if fs, _ := filepath.Glob(filepath.Join(prim.env.blDir, "*.bin")); len(fs) > 1 {
+		rotated = true
+	}
+	if prim.delBatches >= 2 {
+		classes = append(classes, "two-delete-batches")
+	}
+	if prim.dance > 0 {
+		classes = append(classes, "delete-reput-later-delete")
+		if !rotated {
+			classes = append(classes, "delete-reput-later-delete:one-binlog-file") // the fresh replay gets it in one payload
+		} else {
+			classes = append(classes, "delete-reput-later-delete:rotated-binlog")
+		}
+		if c.SnapAt <= prim.danceFrom {
+			classes = append(classes, "delete-reput-later-delete:after-the-snapshot") // the older snapshot replays all of it
+		}
+	}
+	nontrivial = (prim.renames > 0 || prim.mapDeleted > 0 || prim.replaced > 0) && inside || prim.dance > 0
 	return nontrivial, classes
 }
 
@@ -440,9 +509,9 @@ type c16GenState struct {
 func c16GenOp(t *rapid.T, g *c16GenState, cont bool) c16Op {
 	w := rapid.IntRange(0, 99).Draw(t, "kind")
 	mapIDs := func(label string, min, max int) []int32 {
-		hi := int32(g.maps + 2)
-		if hi > 14 {
-			hi = 14
+		hi := int32(g.maps + 2) // a small id universe: re-putting a deleted id must be common
+		if hi > 7 {
+			hi = 7
 		}
 		return rapid.SliceOfN(rapid.Int32Range(1, hi), min, max).Draw(t, label)
 	}
@@ -522,6 +591,33 @@ func c16Gen() *rapid.Generator[c16Case] {
 		n := rapid.IntRange(2, 16).Draw(t, "n")
 		for i := 0; i < n; i++ {
 			c.Ops = append(c.Ops, c16GenOp(t, g, false))
+		}
+		if rapid.IntRange(0, 2).Draw(t, "dance") == 0 {
+			// put ids X and Y, delete X, put X again, delete Y - spread over the history
+			x := rapid.Int32Range(1, 6).Draw(t, "x")
+			y := x%6 + 1 + rapid.Int32Range(0, 3).Draw(t, "dy")
+			if y > 6 {
+				y -= 6
+			}
+			if y == x {
+				y = x%6 + 1
+			}
+			key := func(l string) int { return rapid.IntRange(0, len(c16Keys)-1).Draw(t, l) }
+			dance := []c16Op{
+				{K: "put", Keys: []int{key("kx"), key("ky")}, IDs: []int32{x, y}},
+				{K: "delmap", IDs: []int32{x}},
+				{K: "put", Keys: []int{key("kz")}, IDs: []int32{x}},
+				{K: "delmap", IDs: []int32{y}},
+			}
+			pos := rapid.IntRange(0, len(c.Ops)).Draw(t, "dance_at")
+			for _, d := range dance {
+				c.Ops = append(c.Ops[:pos], append([]c16Op{d}, c.Ops[pos:]...)...)
+				pos += 1 + rapid.IntRange(0, 2).Draw(t, "gap")
+				if pos > len(c.Ops) {
+					pos = len(c.Ops)
+				}
+			}
+			n = len(c.Ops)
 		}
 		c.SnapAt = rapid.IntRange(0, n).Draw(t, "snap_at")
 		m := rapid.IntRange(0, 4).Draw(t, "cont_n")
